@@ -190,7 +190,7 @@ func genC13(ctx *Ctx) {
 		pool := c13Boundary(kind)
 		for _, a := range pool {
 			for _, b := range pool {
-				for _, c := range []lexeme{pool[3], pool[6]} {
+				for _, c := range []lexeme{pool[0], pool[3], pool[6]} {
 					if !canFollow(kind, a, b) || !canFollow(kind, b, c) {
 						continue
 					}
